@@ -55,6 +55,6 @@ def run(chk):
     lines += gen_shapes.make_targeted(chk.seed * 32452843 + 9, 320 if chk.quick else 4000, gen_shapes.MAIN["bds"] + gen_shapes.MAIN["oct"], start=300000, which=["affine_general"])
     # non-dividing divisors in every affine transformer; fold / expand / map / remove with both index orders;
     # relation_with arguments of smaller space dimension
-    lines += gen_shapes.make_targeted(chk.seed * 49979687 + 27, 420 if chk.quick else 5000, kinds, start=400000, which=["affine_div", "fold", "relarg"])
+    lines += gen_shapes.make_targeted(chk.seed * 49979687 + 27, 560 if chk.quick else 6000, kinds, start=400000, which=["affine_div", "fold", "relarg", "cg", "simplify"])
     out, byid = shapescheck.run_cases(chk, "C03", shapescheck.corpus_cases("C03") + lines, "c03", owner)
     shapescheck.account(chk, out, byid, "C03_* (closure / refine / meet / join / forget never cut a point; definite answers) + verified inclusion test incl_sys")
